@@ -269,7 +269,8 @@ func vfC17Oracle(in *vfGWInst, evFull string, pre, post *vfSnap) {
 		graylisted := source != "N" && !pre.Direct[source] && score(source) < g.n.gs.graylistThreshold
 		accepted := f[0] == "lpub" || (g.conn[source] && !m.seen[label] && (pre.MySubs[topic] > 0 || pre.MyRelays[topic] > 0) && !graylisted)
 		if accepted {
-			m.seen[label] = true
+			// (a copy dropped at a full validation queue is not marked seen: the next copy is a first sighting again)
+			m.seen[label] = in.sc.Name != "promises-queue-full"
 			// the message arrived (from anyone): every promise for it is kept
 			for k := range m.prom {
 				if strings.HasSuffix(k, "|"+label) {
@@ -606,6 +607,10 @@ func vfC17Scenarios(thorough bool) []*vfGWScenario {
 			Alphabet: alphabet, Msgs: msgs, Depth: d, DevKinds: []string{"strings", "pick"}, DevEvents: []string{"ihave", "hb"}, DevMax: 3})
 	}
 	mk("window", []string{"pub:b:m1", "pub:c:m2", "pub:b:m3", "lpub:t:p1", "hb", "iwant:a:m1", "iwant:d:m1", "iwant:a:m1+m2", "score:a:-1.5", "score:a:-1", "idw:a:m1"})
+	// the same with the history length at its default and a gossip window of one heartbeat
+	mk("window-hg1", []string{"pub:b:m1", "pub:c:m2", "lpub:t:p1", "hb", "iwant:a:m1", "iwant:d:m1", "iwant:a:m1+m2"})
+	out[len(out)-1].Cfg.Params = "d2hg"
+	out[len(out)-1].Depth = d + 2
 	mk("ihave-caps", []string{"ihave:a:t:m1", "ihave:a:t:m2+m3", "ihave:a:t:m1+m2+m3", "ihave:d:t:m5", "ihave:a:t:m6", "pub:b:m1", "hb", "score:a:-1.5", "score:a:-1", "leave:t"})
 	// the budget of requested IDs is per peer and heartbeat, across as many IHAVEs as are honoured
 	// (... and across re-opened streams: a peer that resets our stream to it gets a new stream, not a new budget)
@@ -617,6 +622,15 @@ func vfC17Scenarios(thorough bool) []*vfGWScenario {
 	// the promised message arrives in time but sits in (gated) validation across the follow-up deadline
 	mk("promises-slow-validation", []string{"ihave:a:t:m1", "ihave:d:t:m1", "pub:a:m1", "pub:b:m1", "vrel:V:m1:A", "vrel:V:m1:I", "hb", "adv:2100", "adv:900"})
 	out[len(out)-1].Cfg.Validators = []vfValCfg{{Name: "V", Topic: "t", Gated: true, Verdict: "A"}}
+	out[len(out)-1].Depth = d + 1
+	// the promised message arrives in time but the validation queue is full for the whole scenario (prefix: one worker
+	// parked in an inline validator on m5, m6 in the queue of one, nothing is ever released): every copy is dropped at
+	// the queue, unseen and unvalidated, yet the promise was kept -- nobody is penalised for the node's own congestion
+	// (C04: "validation is throttled => dropped without penalising anyone")
+	mk("promises-queue-full", []string{"ihave:a:t:m1", "ihave:d:t:m1", "pub:a:m1", "pub:b:m1", "hb", "adv:2100", "adv:900"})
+	out[len(out)-1].Cfg.Validators = []vfValCfg{{Name: "V", Topic: "t", Inline: true, Gated: true, Verdict: "A"}}
+	out[len(out)-1].Cfg.Workers, out[len(out)-1].Cfg.ValQueue = 1, 1
+	out[len(out)-1].Cfg.Prefix = append(append([]string{}, prefix...), "pub:b:m5", "pub:c:m6")
 	out[len(out)-1].Depth = d + 1
 	// a heartbeat that grafts opportunistically (every tick, two peers) while there is something to gossip about: who
 	// is a mesh member -- and therefore gets no IHAVE -- is decided by the whole of the heartbeat's mesh maintenance
